@@ -88,6 +88,8 @@ pub struct ScalarCfg {
 pub const TS_POOL: &[&str] = &[
     "string", "number", "Date", "string | number", "bigint", "boolean", "URL", "string | Date", "Map<string, Date> | URL", "{ iso: string }",
     "readonly string[]",
+    // an identifier that follows a dot and is nevertheless a free reference to a global (rest element)
+    "[...Date[]]",
 ];
 
 impl ScalarCfg {
